@@ -206,6 +206,11 @@ Definition lit_toks (c : ctx) (s : string) : list ctok :=
   | None => [CText (fq (sq c) (double_quote (sq c) s))]
   end.
 
+(* _operand_sql at token level: parentheses around an operand that is a predicate (Terms.opnd) *)
+Definition topnd (sl : oslot) (t : term) (ts : list ctok) : list ctok := tparen (operand_parens sl (okind_of t)) ts.
+(* "the operand's text starts with a minus sign" (Negative / the right operand of '-') *)
+Definition tstarts_minus (ts : list ctok) : bool := starts_minus (cflatten ts).
+
 (* same recursion, same context threading as Terms.render *)
 Fixpoint toks (c : ctx) (t : term) {struct t} : res (list ctok) :=
   match t with
@@ -215,31 +220,41 @@ Fixpoint toks (c : ctx) (t : term) {struct t} : res (list ctok) :=
       Ok (alias_toks c (q c) [CBool (if sqlite then (if b then "1" else "0") else (if b then "true" else "false"))] alias)
   | TValNone alias => Ok (alias_toks c (q c) [CNull] alias)
   | TValRaw txt alias => Ok (alias_toks c (q c) [CNum txt] alias)
-  | TNeg t' => a <- toks c t' ;; Ok (CText "-" :: a)
+  | TNeg t' =>
+      a0 <- toks (opc SNeg t' c) t' ;;
+      let a := topnd SNeg t' a0 in
+      Ok (CText "-" :: tparen (match t' with TArith _ _ _ _ => neg_parens_arith | TNeg _ => neg_parens_neg | _ => false end
+                               || (neg_parens_minus && tstarts_minus a)) a)
   | TArith op l r alias =>
       let c' := set_wa c false in
-      a <- toks c' l ;; b <- toks c' r ;;
-      let s := tparen (left_needs_parens op (top_op l)) a ++ CText (aop_text op) :: tparen (right_needs_parens op (top_op r)) b in
+      a0 <- toks (opc SArithL l c') l ;; b0 <- toks (opc SArithR r c') r ;;
+      let a := topnd SArithL l a0 in
+      let b := topnd SArithR r b0 in
+      let rp := right_needs_parens op (top_op r)
+                || (sub_parens_minus && (match op with OSub => true | _ => false end) && tstarts_minus b) in
+      let s := tparen (left_needs_parens op (top_op l)) a ++ CText (aop_text op) :: tparen rp b in
       Ok (if wa c then alias_toks c (q c) s alias else s)
   | TBasic cm l r alias =>
       let c' := set_wa c false in
-      a <- toks c' l ;; b <- toks c' r ;;
-      let s := a ++ CText (cmp_text cm) :: b in
+      a0 <- toks (opc SCmpL l c') l ;; b0 <- toks (opc SCmpR r c') r ;;
+      let s := topnd SCmpL l a0 ++ CText (cmp_text cm) :: topnd SCmpR r b0 in
       Ok (if wa c then alias_toks c None s alias else s)
   | TCplx bo l r alias =>
       a <- toks (set_subc c (needs_brackets_x bo (top_bop l))) l ;;
       b <- toks (set_subc c (needs_brackets_x bo (top_bop r))) r ;;
       Ok (tparen (subc c) (a ++ CText (" " ++ bop_text_x bo ++ " ")%string :: b))
   | TIn t' cont negated alias =>
-      a <- toks (set_subq c false) t' ;; b <- toks (set_subq c true) cont ;;
-      Ok (alias_toks c (q c) (a ++ CText (" " ++ (if negated then "NOT " else "") ++ "IN ")%string :: b) alias)
+      a <- toks (opc SInTerm t' (set_subq c false)) t' ;; b <- toks (set_subq c true) cont ;;
+      Ok (alias_toks c (q c) (topnd SInTerm t' a ++ CText (" " ++ (if negated then "NOT " else "") ++ "IN ")%string :: b) alias)
   | TBetween t' lo hi alias =>
-      a <- toks c t' ;; b <- toks c lo ;; d <- toks c hi ;;
-      Ok (alias_toks c (q c) (a ++ CText " BETWEEN " :: b ++ CText " AND " :: d) alias)
+      a <- toks (opc SBetTerm t' c) t' ;; b <- toks (opc SBetLo lo c) lo ;; d <- toks (opc SBetHi hi c) hi ;;
+      Ok (alias_toks c (q c) (topnd SBetTerm t' a ++ CText " BETWEEN " :: topnd SBetLo lo b ++ CText " AND " :: topnd SBetHi hi d) alias)
   | TBitAnd t' v alias =>
       a <- toks c t' ;; Ok (alias_toks c (q c) (CText "(" :: a ++ [CText (" & " ++ v ++ ")")%string]) alias)
-  | TIsNull t' alias => a <- toks (set_wa c false) t' ;; Ok (alias_toks c (q c) (a ++ [CText " IS NULL"]) alias)
-  | TNotNull t' alias => a <- toks (set_wa c false) t' ;; Ok (alias_toks c (q c) (a ++ [CText " IS NOT NULL"]) alias)
+  | TIsNull t' alias =>
+      a <- toks (opc SIsNull t' (set_wa c false)) t' ;; Ok (alias_toks c (q c) (topnd SIsNull t' a ++ [CText " IS NULL"]) alias)
+  | TNotNull t' alias =>
+      a <- toks (opc SNotNull t' (set_wa c false)) t' ;; Ok (alias_toks c (q c) (topnd SNotNull t' a ++ [CText " IS NOT NULL"]) alias)
   | TNot t' alias => a <- toks (set_subc c true) t' ;; Ok (alias_toks (set_subc c true) (q c) (CText "NOT " :: a) alias)
   | TAll t' alias => a <- toks c t' ;; Ok (alias_toks c (q c) (a ++ [CText " ALL"]) alias)
   | TCase ws els alias =>
